@@ -320,6 +320,7 @@ COST_QUICK = [
     # narrow keys: thresholds expressed in bytes (elements per cache line) move with sizeof(T)
     CostCfg("K1", "less", "v"),
     CostCfg("K2", "greater", "s4", "basic"),
+    CostCfg("int", "less", "v", "amc"),  # raw arithmetic keys (a search may guess positions from the key values: skewed key sets)
     CostCfg("NTRBIG", "less", "v", "basic"),  # elements larger than a cache line
     CostCfg("TRBIG", "greater", "s4", "basic"),
     CostCfg("TC8", "tless", "v"),  # transparent comparator: heterogeneous keys, incl. keys equivalent to long runs of elements
